@@ -169,6 +169,12 @@ func vHTTPRequests(n int) {
 					wantStatus = 400
 				}
 				req.Body = body
+				// the length of a streamed (chunked) body is unknown to the server: -1; otherwise it is the byte count
+				req.ContentLength = []int64{-1, 16}[vrt.Choice(id+".length", 2)]
+				// a level in the query string as well: with a non-form content type the body is what counts
+				if vrt.Choice(id+".query", 2) == 1 {
+					req.Form = url.Values{"level": []string{"debug"}}
+				}
 			case 2: // another content type with a malformed body
 				req.Header.Set("Content-Type", "text/plain")
 				req.Body = &vJSONBody{mode: 0}
@@ -206,7 +212,7 @@ func vHTTPRequests(n int) {
 	vrt.Cover("done")
 }
 
-//verif: prop=C20 bounds="1 request against an AtomicLevel at any valid initial level shared with a live logger: method in {GET, PUT, POST, DELETE, PATCH, HEAD, OPTIONS, lower-case get/put}; PUT with a URL-encoded form (level absent or a text) or a JSON body (malformed, without level, {level: text}, {level: null} or {level: number}; with or without the JSON content type) or another content type; text = a level name (either case of its first letter), a name with its last byte symbolic, a name plus one symbolic byte, or 0..2 symbolic bytes (printable ASCII). net/http form parsing and encoding/json tokenising are stubbed by contract"
+//verif: prop=C20 bounds="1 request against an AtomicLevel at any valid initial level shared with a live logger: method in {GET, PUT, POST, DELETE, PATCH, HEAD, OPTIONS, lower-case get/put}; PUT with a URL-encoded form (level absent or a text) or a JSON body (malformed, without level, {level: text}, {level: null} or {level: number}; with or without the JSON content type, of known or unknown (streamed) length, with or without a level in the query string as well) or another content type; text = a level name (either case of its first letter), a name with its last byte symbolic, a name plus one symbolic byte, or 0..2 symbolic bytes (printable ASCII). net/http form parsing and encoding/json tokenising are stubbed by contract"
 func VC20HTTP1() { vHTTPRequests(1) }
 
 //verif: prop=C20 tier=thorough bounds="sequences of 2 requests (as VC20HTTP1)"
